@@ -7,6 +7,7 @@ import (
 	"io"
 	"strings"
 
+	"github.com/freeconf/yang/fc"
 	"github.com/freeconf/yang/node"
 	"github.com/freeconf/yang/val"
 
@@ -71,7 +72,10 @@ func JsonListReader(list []interface{}) node.Node {
 			if r.First {
 				keyFields := r.Meta.KeyMeta()
 				for i := 0; i < len(list); i++ {
-					candidate := list[i].(map[string]interface{})
+					candidate, isObject := list[i].(map[string]interface{})
+					if !isObject {
+						return nil, nil, fmt.Errorf("%w. expected object for item %d of list %s", fc.BadRequestError, i, r.Meta.Ident())
+					}
 					if jsonKeyMatches(keyFields, candidate, key) {
 						return JsonContainerReader(candidate), r.Key, nil
 					}
@@ -79,7 +83,10 @@ func JsonListReader(list []interface{}) node.Node {
 			}
 		} else {
 			if r.Row < len(list) {
-				container := list[r.Row].(map[string]interface{})
+				container, isObject := list[r.Row].(map[string]interface{})
+				if !isObject {
+					return nil, nil, fmt.Errorf("%w. expected object for item %d of list %s", fc.BadRequestError, r.Row, r.Meta.Ident())
+				}
 				if len(r.Meta.KeyMeta()) > 0 {
 					keyData := make([]interface{}, len(r.Meta.KeyMeta()))
 					for i, kmeta := range r.Meta.KeyMeta() {
@@ -141,9 +148,17 @@ func JsonContainerReader(container map[string]interface{}) node.Node {
 		}
 		if value, found := fqkGet(r.Meta, container); found {
 			if meta.IsList(r.Meta) {
-				return JsonListReader(value.([]interface{})), nil
+				list, isArray := value.([]interface{})
+				if !isArray {
+					return nil, fmt.Errorf("%w. expected array for list %s", fc.BadRequestError, r.Meta.Ident())
+				}
+				return JsonListReader(list), nil
 			}
-			return JsonContainerReader(value.(map[string]interface{})), nil
+			object, isObject := value.(map[string]interface{})
+			if !isObject {
+				return nil, fmt.Errorf("%w. expected object for %s", fc.BadRequestError, r.Meta.Ident())
+			}
+			return JsonContainerReader(object), nil
 		}
 		return
 	}
